@@ -131,3 +131,132 @@ Proof. intros. unfold set_slot. apply (set_slot_go_upd g v i ds cur 0%nat); assu
 
 Lemma same_group_none d : same_group None d = false.
 Proof. reflexivity. Qed.
+
+(* ---------------------------------------------------------------------------------------------
+   the round trip *)
+Section RT.
+Variable Sc : schema.
+Hypothesis Hwf : wf_schema Sc = true.
+
+Lemma wf_msg_all m : wf_msg Sc (msg Sc m) = true.
+Proof.
+  unfold msg. destruct (Nat.lt_ge_cases m (length Sc)) as [H|H].
+  - unfold wf_schema in Hwf. rewrite forallb_forall in Hwf. apply Hwf. apply nth_In. exact H.
+  - rewrite nth_overflow by exact H. reflexivity.
+Qed.
+
+Definition field_ok (d : fdesc) : Prop :=
+  card_type_ok d = true /\ fnum_ok d = true /\ tmsg_ok Sc d = true.
+
+Lemma msg_fields_ok m : Forall field_ok (mfields (msg Sc m)).
+Proof.
+  pose proof (wf_msg_all m) as H. unfold wf_msg in H.
+  apply andb_true_iff in H. destruct H as [H _]. apply andb_true_iff in H. destruct H as [H _].
+  rewrite forallb_forall in H. apply Forall_forall. intros d Hd. specialize (H d Hd).
+  apply andb_true_iff in H. destruct H as [H H3]. apply andb_true_iff in H. destruct H as [H1 H2].
+  repeat split; assumption.
+Qed.
+
+Lemma msg_nodup m : nodupN (map fnum (mfields (msg Sc m))) = true.
+Proof.
+  pose proof (wf_msg_all m) as H. unfold wf_msg in H.
+  apply andb_true_iff in H. destruct H as [H _]. apply andb_true_iff in H. destruct H as [_ H]. exact H.
+Qed.
+
+Lemma msg_default m : mdefault (msg Sc m) = map (default_slot Sc) (mfields (msg Sc m)).
+Proof.
+  pose proof (wf_msg_all m) as H. unfold wf_msg in H.
+  apply andb_true_iff in H. destruct H as [_ H]. apply list_pv_eqb_eq. exact H.
+Qed.
+
+Lemma dec_fields_nil f ds cur : dec_fields Sc f ds cur [] = Some cur.
+Proof. destruct f; reflexivity. Qed.
+
+Lemma dec_fields_step f ds cur d i wt r :
+  fnum_ok d = true -> wt < 8 -> wt <> 4 ->
+  find_field ds (fnum d) 0 = Some (i, d) ->
+  dec_fields Sc (S f) ds cur (varint (tagv d wt) ++ r) =
+  match dec_slot Sc (fun m cur' p => dec_fields Sc f (mfields (msg Sc m)) cur' p) d (nth i cur VNone) wt r with
+  | Some (v', r') => dec_fields Sc f ds (set_slot ds (group_of d) i v' cur) r'
+  | None => None
+  end.
+Proof.
+  intros Hf Hw H4 Hfind.
+  destruct (tagv_facts d wt Hf Hw) as (A & B & C).
+  cbn [dec_fields].
+  destruct (varint (tagv d wt) ++ r) eqn:E.
+  { apply app_eq_nil in E. destruct E as [E _]. exfalso. exact (varint_nonempty _ E). }
+  rewrite <- E. rewrite varint_roundtrip_l by exact A.
+  rewrite B. destruct (N.eqb_spec wt 4); [contradiction|].
+  rewrite C, Hfind. reflexivity.
+Qed.
+
+Section Slot.
+Variable n : nat.
+Hypothesis IHn : forall m fs,
+  (length (enc_fields Sc (mfields (msg Sc m)) fs) < n)%nat ->
+  canon_val Sc (TMsg m) (VMsg fs) = true ->
+  blen (enc_fields Sc (mfields (msg Sc m)) fs) < two64 ->
+  forall fuel, (length (enc_fields Sc (mfields (msg Sc m)) fs) <= fuel)%nat ->
+  dec_fields Sc fuel (mfields (msg Sc m)) (mdefault (msg Sc m)) (enc_fields Sc (mfields (msg Sc m)) fs) = Some fs.
+Variable ds : list fdesc.
+Hypothesis Hnodup : nodupN (map fnum ds) = true.
+
+Lemma nested_ok m fs f :
+  canon_val Sc (TMsg m) (VMsg fs) = true ->
+  (length (enc_val Sc (TMsg m) (VMsg fs)) < n)%nat ->
+  blen (enc_val Sc (TMsg m) (VMsg fs)) < two64 ->
+  (length (enc_val Sc (TMsg m) (VMsg fs)) <= f)%nat ->
+  dec_fields Sc f (mfields (msg Sc m)) (mdefault (msg Sc m)) (enc_val Sc (TMsg m) (VMsg fs)) = Some fs.
+Proof. rewrite enc_val_msg. intros. apply IHn; auto. Qed.
+
+Lemma canon_scalar_facts k x :
+  canon_val Sc (TScalar k) (VInt x) = true -> in_range k x = true.
+Proof. cbn [canon_val]. auto. Qed.
+
+Lemma is_zero_not_double k x : k <> SDouble -> is_zero k x = true -> x = 0.
+Proof. intros Hk H. destruct k; try congruence; cbn [is_zero] in H; apply N.eqb_eq in H; exact H. Qed.
+
+Lemma app_length_le {A} (a b : list A) : (length a <= length (a ++ b))%nat.
+Proof. rewrite app_length. lia. Qed.
+
+Lemma slot_step fuel rest cur pre d suf v :
+  ds = pre ++ d :: suf ->
+  field_ok d ->
+  (length ds = length cur)%nat ->
+  nth (length pre) cur VNone = default_slot Sc d ->
+  (forall g, fcd d = COneof g -> v <> VNone ->
+     forall k d', nth_error ds k = Some d' -> k <> length pre -> same_group (Some g) d' = true ->
+                  nth k cur VNone = VNone) ->
+  canon_slot Sc d v = true ->
+  (length (enc_slot Sc d v) <= n)%nat ->
+  blen (enc_slot Sc d v) < two64 ->
+  (length (enc_slot Sc d v ++ rest) <= fuel)%nat ->
+  exists fuel', (length rest <= fuel')%nat /\
+    dec_fields Sc fuel ds cur (enc_slot Sc d v ++ rest) = dec_fields Sc fuel' ds (upd (length pre) v cur) rest.
+Proof.
+  intros Hds (Hct & Hfn & Htm) Hlen Hnth Hgrp Hcan Hn Hb Hfuel.
+  assert (Hfind : find_field ds (fnum d) 0 = Some (length pre, d)).
+  { subst ds. apply (find_field_middle pre d suf 0%nat). exact Hnodup. }
+  assert (Hnone : forall x, set_slot ds None (length pre) x cur = upd (length pre) x cur).
+  { intros x. apply set_slot_upd; [|exact Hlen]. intros k d' _ _ H. discriminate H. }
+  assert (Hsame : upd (length pre) (default_slot Sc d) cur = cur).
+  { rewrite <- Hnth. clear - Hlen Hds. subst ds.
+    revert cur Hlen. induction pre as [|a p IH]; intros [|c cur] Hl; cbn in *; try lia; try reflexivity.
+    f_equal. apply IH. lia. }
+  unfold enc_slot, enc_slot_with, canon_slot, canon_slot_with in *.
+  destruct (fcd d) eqn:Hcd.
+  - (* COpt *)
+    destruct (fty d) eqn:Hty; destruct v; try discriminate Hcan.
+    + (* scalar *)
+      admit.
+    + admit.
+    + admit.
+    + admit.
+    + admit.
+  - admit.
+  - admit.
+  - admit.
+Admitted.
+End Slot.
+End RT.
